@@ -247,4 +247,41 @@ def verifyBlockDims (cs : List PComp) : DimVerdict :=
     | _, _, _ => .nogap
   | _, _ => .skipped
 
+/-! ### custom-isotopics density on a library solid  (componentBlueprint.py ComponentBlueprint._setComponentCustomDensity)
+
+The custom density is the density at Tinput.  `dLL` = the material's linear expansion from Tinput to Thot (a parameter). -/
+
+/-- the hot density the component is given: `custom · f`, `f = 1/(1+dLL)²` when the input heights are considered hot (the block
+height is used as it is), `1/(1+dLL)³` when they are cold (the block is expanded axially afterwards) -/
+def customDensityHot (heightsHot : Bool) (custom dLL : Rat) : Rat :=
+  if heightsHot then custom / ((1 + dLL) * (1 + dLL)) else custom / ((1 + dLL) * (1 + dLL) * (1 + dLL))
+
+/-- hot cross-section of a solid: both transverse directions expand -/
+def hotArea (coldArea dLL : Rat) : Rat := coldArea * ((1 + dLL) * (1 + dLL))
+
+/-- the height the mass is computed with: the input height when it is considered hot, the axially expanded one otherwise -/
+def hotHeight (heightsHot : Bool) (inputHeight dLL : Rat) : Rat := if heightsHot then inputHeight else inputHeight * (1 + dLL)
+
+/-! ### third-core hex cores: which named locations are loaded  (reactorBlueprint.py SystemBlueprint._loadComposites →
+cores.py Core.add with `symmetryOverlap`, then converters EdgeAssemblyChanger.removeEdgeAssemblies) -/
+
+/-- `HexGrid.isInFirstThird` (flats-up, (i, j) indices): the centre, and the sector from the 0° line `i + 2j = 0` (included)
+up to the 120° line `2i + j = 0` (excluded) -/
+def inFirstThird (c : Cell) : Bool := (c.1 == 0 && c.2 == 0) || (decide (2 * c.1 + c.2 > 0) && decide (c.1 + 2 * c.2 ≥ 0))
+
+/-- the 120° symmetry line beyond the centre: the "edge assemblies" (rings 3, 5, 7, …), duplicates of the 0° line that
+`locatorInDomain(symmetryOverlap=True)` admits -/
+def onOverlapLine (c : Cell) : Bool := decide (2 * c.1 + c.2 = 0) && decide (c.2 > 0)
+
+/-- `Core.add`: a location is accepted when it lies in the represented domain, the overlap line included -/
+def coreAccepts (third : Bool) (c : Cell) : Bool := !third || inFirstThird c || onOverlapLine c
+
+/-- the image of a cell under the 120° rotation that carries the overlap line onto the 0° line -/
+def rotMinus120 (c : Cell) : Cell := (c.2, -c.1 - c.2)
+
+/-- what the core holds of the named locations after loading and trimming: `none` = ValueError ("non-existent locations");
+edge assemblies are built and then removed by `removeEdgeAssemblies` -/
+def loadThird (contents : List (Cell × String)) : Option (List (Cell × String)) :=
+  if contents.all (fun p => coreAccepts true p.1) then some (contents.filter (fun p => !onOverlapLine p.1)) else none
+
 end ArmiVerif.Blueprint
